@@ -17,6 +17,7 @@ fn main()
 		Some("resolver-eval") => generated::value_types::run_resolver(),
 		Some("lint-eval") => generated::value_types::run_lint(),
 		Some("container-eval") => generated::value_types::run_containers(),
+		Some("typer-eval") => generated::value_types::run_typer(),
 		Some("lexdiff") => lexdiff::run(&args[2..]),
 		Some("lexobs") => lexdiff::run_obs(),
 		Some("export-eval") => ast_eval::run_export(),
